@@ -35,6 +35,8 @@ ASSUMPTIONS = [
     "run_model is only exercised on classes that define step somewhere (otherwise it cannot terminate); the harness "
     "aborts a run_model loop after a fixed number of calls and the model does the same (fuel)",
 ]
+SOURCE_FUNCS = [("mesa/model.py", "Model.__init__"), ("mesa/model.py", "Model._wrapped_step"), ("mesa/model.py", "Model.run_model"),
+                ("mesa/model.py", "Model.step")]
 FUEL = 14
 
 
